@@ -118,6 +118,10 @@ def check_graph(pid, tier, seed, runs):
             "max_ready_set": int(counts.get("max_pool", 0)),
             "cases_generated": int(counts.get("cases", 0)),
             "runs_per_hour": int(evals / wall * 3600) if wall > 0 else 0,
+            "seeds_per_hour": int(counts.get("cases", 0) / wall * 3600) if wall > 0 else 0,
+            "seed_note": "every case index i is its own derived seed sha256(VERIF_SEED, property, i); seeds/hour = cases/hour",
+            "distinct_interleavings": int(sum(s.get("distinct_schedules", 0) for s in summaries)),
+            "distinct_interleavings_measure": "distinct digests of the full completion sequence (depth, task key, index in ready set, ready-set size) per simulated execution",
             "by_op": merge_counters([s.get("by_op") for s in summaries]),
             "by_policy": merge_counters([s.get("by_policy") for s in summaries]),
             "faults_fired": merge_counters([s.get("fired") for s in summaries]),
